@@ -1,14 +1,14 @@
-\* "deep": p1 (central methodology not implemented) is referenced by p2;
-\* up to 6 association instances among ECTP of p2 and A1/A2 over 4 resources
+\* "chain": every subset of 11 association instances that make up 1-hop and
+\* 2-hop scoping scenarios (with duplicates, wrong classes, both directions)
 SPECIFICATION Spec
 CONSTANTS
   Variant = "noreverse"
   PinnedAssert = FALSE
-  EctpU <- EctpDeep
-  RpU <- RpDeep
-  A1U <- ADeep
-  A2U <- ADeep
-  MaxEdges = 6
+  EctpU <- EctpChain
+  RpU <- RpChain
+  A1U <- A1Chain
+  A2U <- A2Chain
+  MaxEdges = 11
   Modes1 <- OnlyUnsup
   ModesO <- OnlyImpl
   QuerySet = "scoping"
